@@ -57,6 +57,19 @@ static void simTerminate() {
     abort();
 }
 
+// crash signature for the plain build: raw return addresses (ASLR is off, so they are stable), resolved by the parent
+#include <execinfo.h>
+static void crashHandler(int sig) {
+    void *bt[48];
+    int n = backtrace(bt, 48);
+    char buf[64];
+    int k = snprintf(buf, sizeof buf, "SIMCRASH signal %d\n", sig);
+    if (write(2, buf, (size_t)k) < 0) {}
+    for (int i = 0; i < n; i++) { k = snprintf(buf, sizeof buf, "SIMFRAME %p\n", bt[i]); if (write(2, buf, (size_t)k) < 0) {} }
+    signal(sig, SIG_DFL);
+    raise(sig);
+}
+
 static Json runWorldHere(const Json &plan, bool trace) {
     World *w = new World();
     w->log.trace = trace;
@@ -157,6 +170,12 @@ static Json execPlan(const Json &plan, double timeoutS, bool trace) {
         { int nul = open("/dev/null", O_WRONLY); if (nul >= 0) { dup2(nul, 1); close(nul); } }   // the libraries print diagnostics to stdout
         struct rlimit rl = {0, 0}; setrlimit(RLIMIT_CORE, &rl);
         std::set_terminate(simTerminate);
+#ifndef SIM_SAN
+        {
+            struct sigaction sa; memset(&sa, 0, sizeof sa); sa.sa_handler = crashHandler; sa.sa_flags = SA_ONSTACK | SA_NODEFER;
+            sigaction(SIGSEGV, &sa, nullptr); sigaction(SIGBUS, &sa, nullptr); sigaction(SIGFPE, &sa, nullptr); sigaction(SIGILL, &sa, nullptr);
+        }
+#endif
         Json r;
         try {
             r = runWorldHere(plan, trace);
@@ -197,7 +216,7 @@ static Json execPlan(const Json &plan, double timeoutS, bool trace) {
     std::string err;
     {
         off_t n = lseek(efd, 0, SEEK_END);
-        if (n > 0) { if (n > (1 << 20)) n = 1 << 20; err.resize((size_t)n); lseek(efd, 0, SEEK_SET); ssize_t k = read(efd, &err[0], (size_t)n); if (k >= 0) err.resize((size_t)k); }
+        if (n > 0) { off_t start = 0; if (n > (1 << 20)) { start = n - (1 << 20); n = 1 << 20; } err.resize((size_t)n); lseek(efd, start, SEEK_SET); ssize_t k = read(efd, &err[0], (size_t)n); if (k >= 0) err.resize((size_t)k); }   // keep the tail
         close(efd);
     }
     Json res;
@@ -223,6 +242,19 @@ static Json execPlan(const Json &plan, double timeoutS, bool trace) {
             Json j = Json::obj();
             j.set("prop", "C15"); j.set("clause", status == "timeout" ? "termination" : "crash");
             std::string csig = status == "timeout" ? "timeout" : "crash:" + status;
+            if (err.find("SIMFRAME ") != std::string::npos) {
+                // first frame inside /repo, resolved with addr2line
+                char exe[512]; ssize_t el = readlink("/proc/self/exe", exe, sizeof exe - 1); exe[el > 0 ? el : 0] = 0;
+                std::string cmd = std::string("addr2line -e ") + exe;
+                std::istringstream es(err); std::string ln; int nf = 0;
+                while (std::getline(es, ln)) if (ln.rfind("SIMFRAME ", 0) == 0 && nf++ < 40) cmd += " " + ln.substr(9);
+                FILE *pp = popen(cmd.c_str(), "r");
+                if (pp) {
+                    char lb[1024];
+                    while (fgets(lb, sizeof lb, pp)) { std::string loc = repoFrame(lb); if (!loc.empty()) { csig += "@" + loc; break; } }
+                    pclose(pp);
+                }
+            }
             size_t tp = err.find("SIMTERMINATE: ");
             if (tp != std::string::npos) { std::string t = err.substr(tp + 14); t = t.substr(0, t.find('\n')); csig = "crash:terminate:" + t; }
             j.set("sig", csig);
@@ -231,7 +263,7 @@ static Json execPlan(const Json &plan, double timeoutS, bool trace) {
         }
         res.set("violations", v);
     }
-    if (!err.empty() && (trace || status != "ok")) res.set("stderr", err.substr(0, 6000));
+    if (!err.empty() && (trace || status != "ok")) res.set("stderr", err.size() > 6000 ? err.substr(err.size() - 6000) : err);
     return res;
 }
 
